@@ -110,6 +110,12 @@ def run_jobs(tier, props, which=('explored', 'empty', 'end', 'bound')):
                       ([0, 1], False)]:
             add(dict(m=m, explored=False, n_batch=1, K=1, no_new_bound=True,
                      run_discard=rd))
+        # the discard flag was already set before exploration finished;
+        # blobs present while an unoccupied shell is removed
+        add(dict(m=[1, 1], explored=False, discard=True, n_batch=1, K=1,
+                 no_new_bound=True, run_discard=True))
+        add(dict(m=[1, 0, 1], explored=False, n_batch=1, K=1,
+                 no_new_bound=True, run_discard=True, blobs='scalar'))
         if thorough:
             add(dict(m=[1, 0, 0, 1], explored=False, n_batch=1, K=1,
                      no_new_bound=True, run_discard=True))
